@@ -84,7 +84,7 @@ def r5_1(ctx):
             while not isinstance(st, ast.stmt):
                 st = par[st]
             nodes = [n for n in g.nodes_for(st)] or [n for n in g.nodes_for(getattr(st, "iter", st))]
-            ctx.require(nodes, f"{fi.key}: CFG node for {norm(c, 60)} missing")
+            ctx.require(nodes, f"{fi.key}: CFG node for {norm(c, 60)} missing", anchor=True)
             # argument derived from self.examine that disables flag changes (fetch only)
             if nm == "fetch" and any("self.examine" in norm(a) for a in list(c.args) + [k.value for k in c.keywords]):
                 ctx.ok("R5.1", where(fi), f"{norm(c.func)}: flag changes disabled by an argument derived from self.examine")
@@ -293,7 +293,7 @@ def _effect_node(n, self_excluded=("execute",)):
 def r5_5(ctx):
     p = ctx.p
     fam = _noBadFamily(p)
-    ctx.require({"No", "Bad"} <= fam, "exception family No/Bad not found")
+    ctx.require({"No", "Bad"} <= fam, "exception family No/Bad not found", anchor=True)
     targets = [p.func(k) for k in ("mbox.Mailbox.create", "mbox.Mailbox.delete", "mbox.Mailbox.rename", "mbox.Mailbox.append", "mbox.Mailbox.copy", "mbox.Mailbox.store", "mbox.Mailbox.expunge", "mbox._helper_rename_folder", "mbox._helper_rename_inbox")]
     targets += [fi for m, fi in p.cls("Authenticated").methods.items() if m.startswith("do_")]
     pairs = 0
@@ -397,14 +397,14 @@ def r5_7(ctx):
 
 
 def run(ctx):
-    r5_1(ctx)
-    r5_2(ctx)
-    r5_3(ctx)
-    r5_5(ctx)
-    r5_6(ctx)
-    r5_7(ctx)
+    ctx.do(r5_1)
+    ctx.do(r5_2)
+    ctx.do(r5_3)
+    ctx.do(r5_5)
+    ctx.do(r5_6)
+    ctx.do(r5_7)
     from . import c10
-    c10.r10_4(ctx)
-    c10.r10_4_units(ctx)
+    ctx.do(c10.r10_4)
+    ctx.do(c10.r10_4_units)
     for k, v in RAISE_AFTER_EFFECT_OK.items():
         ctx.trust(f"frozen raise-after-effect exemption: {k} - {v}")
